@@ -1,4 +1,4 @@
-"""bin/check <ID> [--tier quick|thorough] [--replay FILE] | --setup | --selftest"""
+"""bin/check <ID> [--tier quick|thorough] [--replay FILE] | --setup | --selftest | --extras [--tier ...]"""
 import argparse
 import json
 import os
@@ -67,6 +67,7 @@ def main(argv=None):
     ap.add_argument('--replay')
     ap.add_argument('--setup', action='store_true')
     ap.add_argument('--selftest', action='store_true')
+    ap.add_argument('--extras', action='store_true', help='conformance with the parts of the specification beyond the listed properties')
     a = ap.parse_args(argv)
     os.chdir(common.VERIF)
     try:
@@ -75,6 +76,10 @@ def main(argv=None):
         if a.selftest:
             from . import selftest
             return selftest.run()
+        if a.extras:
+            common.use_repo()
+            from . import props_objects
+            return props_objects.run(a.tier)
         reg = registry()
         if a.pid not in reg:
             print(f'unknown property {a.pid}; known: {sorted(reg)}')
